@@ -136,6 +136,27 @@ def run(F, R):
     R.check({"possible_types", "implements", "enum_values", "input_fields"} <= un, "R17.3", "exporter-reads:relations", et.where(), "reads possible_types/implements/enum_values/input_fields",
             "exporter misses %s" % sorted({"possible_types", "implements", "enum_values", "input_fields"} - un))
 
+    R.rule("R17.6", "federation-only filtering is conditioned on the federation option: every place in the exporter that drops the `_service` / `_entities` fields "
+                    "does so only when options.federation is set (plain SDL must list every field the schema serves)")
+    n6 = 0
+    for b in bodies:
+        if b.kind != "fn" and b.kind != "closure":
+            continue
+        for c in b.calls():
+            if c.callee and c.callee.endswith("::eq") and any(resolve_str(b, a) in ("_service", "_entities") for a in c.args):
+                n6 += 1
+                fed = False
+                for sbb, t in b.switches():
+                    o, _ = trace(b, t[1])
+                    if any(k == "field" and ".federation" in x for k, x in o) and b.dominates(sbb, c.bb):
+                        false_t = [tg for v, tg in t[2] if v == "0"]
+                        if false_t and c.bb not in b.reachable(false_t[0], avoid=[sbb]):
+                            fed = True
+                fnname = re.sub(r"\{impl#\d+\}", "{impl}", b.defp.replace("async_graphql::registry::", ""))
+                R.check(fed, "R17.6", "federation-filter-unconditional:" + re.sub(r"\{closure#\d+\}", "{c}", fnname), c.where(), "under options.federation",
+                        "the `_service`/`_entities` filter is applied without testing options.federation: a federation-enabled schema exported as plain SDL loses these query fields")
+    R.floor("R17.6", "_service/_entities comparisons in the exporter", n6, 2)
+
     R.rule("R17.4", "default_value metadata in expansions is produced by InputType::to_value followed by Display (so C15's printer rules carry over)")
     n = 0
     for b in F.bodies.values():
